@@ -251,6 +251,80 @@ def c10_5(ck, prog):
         r.note('expire_incomplete shape not recognised (informational)')
 
 
+def c10_9(ck, prog):
+    """What the bus accepts from a client by default, a default-configured receiver can take."""
+    r = ck.rule('C10.9', 'the bus\'s built-in per-message limits (size, attached descriptors) do not exceed the limits a '
+                'default-configured library receiver applies to itself: the constants stored by bus_config_parser_new '
+                'and by _dbus_message_loader_new are compared by value', 'TAB',
+                breaks='the bus accepts and forwards a message its sender should have been disconnected for; the '
+                'well-behaved addressee cannot receive it (descriptor array too small, message too long) and is the '
+                'one thrown off the bus', floor=2)
+    pn = prog.fn('bus_config_parser_new', 'bus/config-parser.c')
+    ln = prog.fn('_dbus_message_loader_new', 'dbus/dbus-message.c')
+
+    def const_store(fn, rec, field):
+        vals = []
+        for b, i, ev in fn.events():
+            for lhs, how, rhs in written_lvalues(ev):
+                if how == '=' and is_member(lhs, field, rec):
+                    vals.append((lib.eval_expr(rhs, lambda e: None), estr(rhs), ev['line']))
+        return vals
+    for field in ('max_message_unix_fds', 'max_message_size'):
+        bus = const_store(pn, 'BusLimits', field)
+        libv = const_store(ln, 'DBusMessageLoader', field)
+        if len(bus) != 1 or len(libv) != 1 or bus[0][0] is None or libv[0][0] is None:
+            raise AnalysisBroken('defaults of %s: expected one constant store in each constructor (%s / %s)' % (
+                field, bus, libv))
+        key = 'default:%s' % field
+        if bus[0][0] > libv[0][0]:
+            r.violation(key, pn.name, 'bus/config-parser.c', bus[0][2],
+                        'the bus lets %s = %s (%d) through by default while a library receiver takes at most %s (%d)' % (
+                            field, bus[0][1], bus[0][0], libv[0][1], libv[0][0]))
+        else:
+            r.ok(key, {'bus': bus[0][0], 'library': libv[0][0]})
+
+
+def c10_10(ck, prog):
+    """A disabled watch must not wake the main loop: the mask left in the kernel is edge-triggered and empty."""
+    EP = 'dbus/dbus-pollable-set-epoll.c'
+    r = ck.rule('C10.10', 'disabling a watch leaves an edge-triggered, otherwise empty event mask in the epoll set: the '
+                'value stored in event.events before EPOLL_CTL_MOD is a constant that has EPOLLET and neither EPOLLIN '
+                'nor EPOLLOUT (hang-up and error are always reported by the kernel; level-triggered they are reported '
+                'on every wait)', 'TAB',
+                breaks='a client that closes its end while its watch is disabled (its messages are queued behind a '
+                'limit) makes every epoll_wait return at once: the bus spins at full CPU and serves the others late',
+                floor=1)
+    fn = prog.fn('socket_set_epoll_disable', EP)
+    ctl = [c for b, i, c in fn.calls('epoll_ctl')]
+    if len(ctl) != 1:
+        raise AnalysisBroken('socket_set_epoll_disable: expected one epoll_ctl call')
+    stores = []
+    for b, i, ev in fn.events():
+        for lhs, how, rhs in written_lvalues(ev):
+            if lhs.get('k') == 'member' and lhs.get('field') == 'events' and how == '=':
+                stores.append((rhs, ev['line']))
+    if len(stores) != 1:
+        raise AnalysisBroken('socket_set_epoll_disable: expected one store to event.events, found %d' % len(stores))
+    v = lib.eval_expr(stores[0][0], lambda e: None)
+    if v is None:
+        x = stores[0][0]
+        while x.get('k') in ('paren', 'cast'):
+            x = x['e']
+        v = lib.const_call_value(prog, fn, x)
+    if v is None:
+        r.note('socket_set_epoll_disable: the mask %s is not a constant this rule can evaluate; no verdict' % estr(stores[0][0]))
+        raise AnalysisBroken('socket_set_epoll_disable: mask %s not evaluable' % estr(stores[0][0]))
+    et, rd, wr = 1 << 31, 0x001, 0x004
+    key = 'socket_set_epoll_disable:mask'
+    if False:
+        pass
+    elif not (v & et) or v & (rd | wr):
+        r.violation(key, fn.name, EP, stores[0][1], 'the mask of a disabled watch is %s = %#x: %s' % (
+            estr(stores[0][0]), v, 'not edge-triggered' if not v & et else 'still asks for readiness'))
+    else:
+        r.ok(key, {'mask': '%#x' % v})
+
+
 def run(ck):
     ck.explanation = (
         'Static rules over dbus-transport.c, dbus-transport-socket.c, bus/driver.c, bus/connection.c: a corrupt '
@@ -263,6 +337,8 @@ def run(ck):
                       '(run-time properties); memory safety of the parser beyond C01/C07 clauses')
     for v, prog in ck.programs(thorough_variants=('B',)):
         c10_1(ck, prog)
+        c10_9(ck, prog)
+        c10_10(ck, prog)
         # a hostile descriptor packet must not leak descriptors in the bus (shared with C15.2)
         from rules.C15 import c15_2
         r6 = ck.rule('C10.6', 'descriptors received from a client are never leaked or closed twice by the loader: '
